@@ -17,6 +17,16 @@ fn text(construct: &str, n: usize) -> String {
         "else-chain" => format!("{}c", "if a then b else ".repeat(n)),
         "index-chain" => format!("a{}", ".b".repeat(n)),
         "parens" => format!("{}a{}", "(".repeat(n), ")".repeat(n)),
+        // length instead of depth: n items / characters at nesting depth 1
+        "flat-list" => format!("[{}i1]", "i1, ".repeat(n)),
+        "flat-map" => format!("{{{}z: i1}}", (0..n).map(|i| format!("k{}: i1, ", i)).collect::<String>()),
+        "flat-args" => format!("[{}a]", "f(a), a.b, -a, ".repeat(n / 3 + 1)),
+        "long-string" => format!("\"{}\"", "x\\n".repeat(n)),
+        "long-name" => "a".repeat(n + 1),
+        // texts that do not parse: the error path sees the same depth / length
+        "unclosed-parens" => format!("{}a", "(".repeat(n)),
+        "unclosed-brackets" => format!("{}a", "[{k: (".repeat(n / 3 + 1)),
+        "bad-tail" => format!("{}a a{}", "(".repeat(n), ")".repeat(n)),
         _ => panic!("construct"),
     }
 }
@@ -79,6 +89,16 @@ fn work(construct: &str, op: &str, n: usize) {
                     let same = e == e2;
                     assert!(same);
                     std::mem::forget(e2);
+                    std::mem::forget(e);
+                }
+                "display-value" => {
+                    // print the *value* the expression evaluates to (Display for Value)
+                    let facts: Value = std::collections::BTreeMap::from([("a", Value::Bool(true))]).into();
+                    if let Ok(v) = block_on(e.evaluate(&facts)) {
+                        let s = v.to_string();
+                        std::mem::forget(s);
+                        std::mem::forget(v);
+                    }
                     std::mem::forget(e);
                 }
                 "evaluate" => {
